@@ -530,6 +530,11 @@ class Model:
         if isinstance(callee, tuple) and callee and callee[0] == "method":
             return self.ops.method(callee[1], callee[2], pos, kw, node)
         if isinstance(callee, ExtMod):
+            if I.call_hook is not None and name.split(".")[-1] != callee.name.split(".")[-1]:
+                # a library function reached through an alias (`opener = gzip.open ...; opener(path)`): hooks see it under its own name
+                r_ = I.call_hook(I, callee.name, list(pos), dict(kw), node)
+                if r_ is not NotImplemented:
+                    return r_
             return self.ops.external(callee.name, pos, kw, node)
         if isinstance(callee, tuple) and callee and callee[0] == "attr" and isinstance(callee[1], tuple) and callee[1] and callee[1][0] == "regex":
             # a compiled pattern applied to CONCRETE strings: the library's own result (sub / subn on literals; match-style calls stay symbolic tests)
